@@ -111,7 +111,25 @@ def run_http1(case, opts_kw=None, hook_extra=None, before_close=None) -> Outcome
     state = {"next_resp": 0, "fwd_error": None}
     server_in = {}  # conn -> bytes the scripted server sent
 
-    def pump():
+    pending = []  # [conn, response index, client pieces still to wait]
+    delays = seg.get("delay") or []
+
+    def deliver(conn, i):
+        rd = resp_descs[i]
+        raw = http1gen.resp_bytes(rd)
+        server_in[conn] = server_in.get(conn, b"") + raw
+        scuts = (seg.get("server") or [])
+        pieces = cut(raw, scuts[i]) if i < len(scuts) and scuts[i] else [raw]
+        for p in pieces:
+            if not (conn.state & ConnectionState.CAN_READ):
+                break
+            d.recv(conn, p)
+        if rd.get("close_after") and conn.state & ConnectionState.CAN_READ:
+            d.close(conn)
+
+    def pump(tick=False, flush=False):
+        """scripted servers: answer every completely forwarded request, after the configured number of further
+        client segments (delay) so that client data also arrives while a response is outstanding"""
         progress = True
         while progress and d.crashed is None:
             progress = False
@@ -127,20 +145,16 @@ def run_http1(case, opts_kw=None, hook_extra=None, before_close=None) -> Outcome
                     i = state["next_resp"]
                     state["next_resp"] += 1
                     answered[conn] = answered.get(conn, 0) + 1
-                    rd = resp_descs[i]
-                    raw = http1gen.resp_bytes(rd)
-                    server_in[conn] = server_in.get(conn, b"") + raw
-                    scuts = (seg.get("server") or [])
-                    pieces = cut(raw, scuts[i]) if i < len(scuts) and scuts[i] else [raw]
-                    for p in pieces:
-                        if not (conn.state & ConnectionState.CAN_READ):
-                            break
-                        d.recv(conn, p)
-                    progress = True
-                    if rd.get("close_after") and conn.state & ConnectionState.CAN_READ:
-                        d.close(conn)
-                    if not (conn.state & ConnectionState.CAN_READ):
-                        break
+                    pending.append([conn, i, delays[i] if i < len(delays) else 0])
+            if tick:
+                for p in pending:
+                    p[2] -= 1
+                tick = False
+            while pending and (pending[0][2] <= 0 or flush):
+                conn, i, _ = pending.pop(0)
+                if conn.state & ConnectionState.CAN_READ:
+                    deliver(conn, i)
+                progress = True
 
     d.start()
     pieces = cut(client_bytes, seg.get("client") or [])
@@ -148,13 +162,13 @@ def run_http1(case, opts_kw=None, hook_extra=None, before_close=None) -> Outcome
         if not (ctx.client.state & ConnectionState.CAN_READ) or d.crashed:
             break
         d.recv(ctx.client, p)
-        pump()
-    pump()
+        pump(tick=True)
+    pump(flush=True)
     if before_close:
         before_close(d)
     if ctx.client.state & ConnectionState.CAN_READ:
         d.close(ctx.client)
-    pump()
+    pump(flush=True)
     for conn in list(d.servers):
         if conn.state & ConnectionState.CAN_READ:
             d.close(conn)
